@@ -41,6 +41,39 @@ def map_for_tla(m) -> Dict:
     return {"id": m["id"], "len": m["len"], "x": m["x"]} if m else NULLMAP
 
 
+LIM = 2 ** 31 - 1
+
+
+def rebase_line(line: Dict) -> Dict:
+    """TLC integers are 32-bit and coordinates are in deci-bp: for references beyond ~200 Mb all reference-side
+    coordinates of a line are given minus a constant B (a multiple of 10^7 deci-bp, so truncation to whole bp is not
+    affected). The record clauses are translation invariant on the reference axis. A value that still does not fit
+    (e.g. a read-back coordinate that wrapped around) is replaced by a sentinel that equals nothing."""
+    xs = line["ref"]["x"]
+    if not xs or max(max(xs), line["ref"]["len"], line["rec"]["rlen"]) <= 2 * 10 ** 9:
+        return line
+    B = (min(xs) // 10 ** 7) * 10 ** 7
+
+    def f(v, b=B):
+        w = v - b
+        return w if -LIM <= w <= LIM else -999999999
+
+    out = dict(line)
+    out["ref"] = {"id": line["ref"]["id"], "len": f(line["ref"]["len"]), "x": [f(v) for v in xs]}
+    rec = dict(line["rec"])
+    for k in ("rs", "re", "rlen"):
+        rec[k] = f(rec[k])
+    out["rec"] = rec
+    if "rb" in line:
+        rb = dict(line["rb"])
+        for k in ("rs", "re", "rlen"):
+            rb[k] = f(rb[k], B // 10)
+        rb["rpos"] = [f(v) for v in rb["rpos"]]
+        out["rb"] = rb
+    out["rebased_by_deci_bp"] = B
+    return out
+
+
 def read_back(path: str, rp: str, qp: str):
     """the project's own reader, wired as Program wires it"""
     from src.parsers.cmap_reader import CmapReader
@@ -134,12 +167,33 @@ def fragment_lines(rows, qp: str, tag) -> List[Dict]:
     return out
 
 
+def far_input(rng: random.Random, n_qry: int) -> Dict:
+    """one reference whose labels lie beyond 2^31 bp (a valid CMAP: positions are plain floats) and a few queries"""
+    xs = gen.make_reference(rng, 80, min_gap=2000, mean_gap=9000)
+    base = 2 ** 31 + rng.randint(10 ** 5, 10 ** 6)
+    xs = [v + base for v in xs]
+    ref = {"id": 2, "len": (xs[-1] + 50000) * 10, "x": [v * 10 + rng.randint(0, 9) for v in xs], "bp": xs}
+    qrys = []
+    for k in range(n_qry):
+        w = rng.randint(15, 25)
+        w0 = rng.randint(4, 80 - w - 4)
+        c, _ = gen.cut_query(rng, xs, w0, w0 + w, sigma=100)
+        if k % 2:
+            c = gen.mirror_query(c)
+        qrys.append({"id": 5 + k, "len": (c[-1] + 100) * 10, "x": [v * 10 for v in c], "kind": "far", "ref": 2,
+                     "mirrored": bool(k % 2)})
+    return {"refs": [ref], "qrys": qrys}
+
+
 def explore_input(seed: int, idx: int, modes: List[str], n_qry: int, with_readback: bool, record: bool,
                   kinds=None, keep_rows: bool = False) -> Dict:
     """one generated input, run in every mode in process; returns Trace_Xmap lines and a per-mode summary"""
     rng = random.Random(seed * 100003 + idx)
-    inp = pipecases.make_input(rng, n_refs=rng.choice([1, 2, 3]), n_qry=n_qry, kinds=kinds,
-                               repeats=rng.random() < 0.3)
+    if kinds == ["far"]:
+        inp = far_input(rng, n_qry)
+    else:
+        inp = pipecases.make_input(rng, n_refs=rng.choice([1, 2, 3]), n_qry=n_qry, kinds=kinds,
+                                   repeats=rng.random() < 0.3, small_ids=(idx % 3 == 1))
     extra = PARAM_VECTORS[idx % len(PARAM_VECTORS)]
     wd = os.path.join(os.environ.get("VERIF_WORK", "/verif/work"), f"pipe-{os.getpid()}-{seed}-{idx}")
     os.makedirs(wd, exist_ok=True)
@@ -211,7 +265,7 @@ def validate_records(ctx: Ctx, results, prefix: str):
     lines = [ln for r in results for ln in r["lines"]]
     if not lines:
         raise tlc.MachineryError("the pipeline produced no record at all")
-    payload = [{k: v for k, v in ln.items() if k != "tag"} for ln in lines]
+    payload = [{k: v for k, v in rebase_line(ln).items() if k not in ("tag", "rebased_by_deci_bp")} for ln in lines]
     verdicts, r = batch.validate("Trace_Xmap", "Trace_Xmap.cfg", ctx.workdir, payload)
     ctx.add_traces(len(lines))
     ctx.states += r.distinct
